@@ -223,6 +223,9 @@ def shards(tier, seed):
     for n in names():
         if n not in AB.ARCS:
             out.append({'what': 'segment', 'config': True, 'scale': 1.0, 'shape': n, 'rot': 0, 'shift': [3e5, 2e5]})
+    # the same segments as the library hands them out (derived objects: numpy scalars, warm caches, ...)
+    out += AB.provenance_shards(out, tier, lambda d: d['what'] == 'segment' and d['rot'] in (0, 37) and 'shift' not in d and
+                                d['scale'] == (1.0 if d['config'] else 2.0 ** -6))
     return out
 
 
